@@ -20,7 +20,7 @@ objects, a loop over an unknown iterable marks the state imprecise (`mark_imprec
 import ast
 from collections import namedtuple
 
-from .paths import TOP, NONE, NOVALUE, Const, TupleV, Opaque, Exc, ORD, ClassRef, Env, SliceV
+from .paths import TOP, NONE, NOVALUE, Const, TupleV, Opaque, Exc, ORD, ClassRef, Env, SliceV, MaybeV
 
 DictV = namedtuple("DictV", "items")  # content of a dict object: tuple of (key value, value) pairs, keys pairwise distinct
 Ref = namedtuple("Ref", "kind site n")  # kind: 'list' | 'dict' | 'ddict:list' | 'ddict:dict'
@@ -30,6 +30,10 @@ CONSUMERS = ("list", "tuple", "set", "frozenset", "sorted", "dict", "sum", "any"
 MAX_LEN = 32
 MAX_ALLOC = 12
 SCENARIO_LIMIT = 8  # sizes compared with a constant >= this are beyond what the small scenarios say anything about
+
+
+ItemGetter = namedtuple("ItemGetter", "idx")  # operator.itemgetter(i, ...)
+_IDX_NODE = ast.parse("x[0]").body[0].value  # a plain (non-slice) subscript node, for lookups made by the model itself
 
 
 class LenV(namedtuple("LenV", "n")):
@@ -67,7 +71,7 @@ def dict_get(d, k):
     unknown = False
     for kk, vv in d.items:
         if kk == k and kk is not TOP:
-            return ("hit", vv)
+            return ("hit", vv) if not isinstance(vv, MaybeV) else ("unknown",)
         if not distinct(kk, k):
             unknown = True
     return ("unknown",) if unknown else ("miss",)
@@ -163,6 +167,33 @@ class ExactCollections:
     scenario_limit = SCENARIO_LIMIT
     thresholds = None
 
+    eager_generators = True  # a generator function called from here is interpreted and its yields collected (paths.inline)
+
+    def generator_value(self, node, yields, finfo):
+        return GenV((node.lineno, node.col_offset, finfo.name), tuple(yields))
+
+    def yield_(self, node, value, state):
+        key = ("#yields", self._depth)
+        if state.has(key):
+            return [("ok", NONE, state.set(key, state.get(key) + (value,)))]
+        return super().yield_(node, value, state)
+
+    def _apply_key(self, node, keyf, x, state):
+        """A key function (lambda, operator.itemgetter) applied to one element -> (value, state) or None."""
+        if isinstance(keyf, ItemGetter):
+            vals = []
+            for i in keyf.idx:
+                v, may, state = self.subscript_load_s(x, Const(i), _IDX_NODE, state)
+                if v is NOVALUE or v is TOP:
+                    return None
+                vals.append(v)
+            return (vals[0] if len(vals) == 1 else TupleV(tuple(vals))), state
+        if hasattr(keyf, "closure") and hasattr(self, "apply_lambda"):
+            rr = self.apply_lambda(node, keyf, [x], {}, state)
+            if rr and len(rr) == 1 and rr[0][0] == "ok":
+                return (deref(rr[0][1], rr[0][2]) if isinstance(rr[0][1], Ref) else rr[0][1]), rr[0][2]
+        return None
+
     def _threshold(self, c):
         if self.thresholds is None:
             self.thresholds = set()
@@ -257,6 +288,10 @@ class ExactCollections:
         return super().refine_compare(node, op, lexpr, l, rexpr, r, branch, state)
 
     def binop_s(self, node, l, r, state):
+        if isinstance(node.op, (ast.FloorDiv, ast.Mod, ast.Div)) and isinstance(l, LenV) and isinstance(r, Const) and isinstance(r.v, int) and not isinstance(r.v, bool) and abs(r.v) >= self.scenario_limit:
+            # len(batch) // chunk, len(batch) % chunk: a size threshold, like a comparison with that constant
+            self._threshold(r.v)
+            state = self.mark_imprecise(state, node)
         if isinstance(l, LenV):
             l = Const(l.n)
         if isinstance(r, LenV):
@@ -393,6 +428,8 @@ class ExactCollections:
                     return ok(TOP, self.mark_imprecise(self.put(state, obj, TOP), node))  # an arbitrary element
                 return ok(TOP)
             # dict objects
+            if any(isinstance(v_, MaybeV) for k_, v_ in cont.items) and attr in ("items", "keys", "values", "copy", "popitem"):
+                return ok(TOP, self.mark_imprecise(state, node))
             if attr == "items" and not args:
                 return ok(TupleV(tuple(TupleV((k, v)) for k, v in cont.items)))
             if attr == "keys" and not args:
@@ -469,6 +506,42 @@ class ExactCollections:
             if fac in ("list", "dict") or not node.args:
                 return [("ok",) + self.alloc(state, node, "ddict:%s" % fac if fac else "dict", DictV(()))]
             return ok(TOP)
+        def _itertools(nm):
+            return (isinstance(f, ast.Attribute) and f.attr == nm and isinstance(f.value, ast.Name) and f.value.id == "itertools") or (isinstance(f, ast.Name) and f.id == nm)
+
+        if ((isinstance(f, ast.Attribute) and f.attr == "itemgetter" and isinstance(f.value, ast.Name) and f.value.id == "operator") or (isinstance(f, ast.Name) and f.id == "itemgetter")) and args and not kwargs and all(isinstance(a, Const) for a in args):
+            return ok(ItemGetter(tuple(a.v for a in args)))
+        if isinstance(fval, ItemGetter) and len(args) == 1 and not kwargs:
+            r_ = self._apply_key(node, fval, args[0], state)
+            return ok(r_[0], r_[1]) if r_ is not None else ok(TOP)
+        if _itertools("chain") and not kwargs:
+            # itertools.chain(a, b, ...): a one-shot iterator over the elements of the arguments, in order
+            out, st = [], state
+            for a in args:
+                seq, st = self.consume(a, st)
+                if seq is None:
+                    out = None
+                    break
+                out += list(seq)
+            if out is not None:
+                return ok(GenV((node.lineno, node.col_offset), tuple(out)), st)
+            return ok(TOP, self.mark_imprecise(state, node))
+        if _itertools("islice") and 2 <= len(args) <= 4 and not kwargs:
+            nums = [None if a == NONE else (a.n if isinstance(a, LenV) else (a.v if isinstance(a, Const) and isinstance(a.v, int) and not isinstance(a.v, bool) else "?")) for a in args[1:]]
+            src = args[0]
+            if "?" not in nums and (self._seq(src, state) is not None):
+                lo, hi, step = (0, nums[0], 1) if len(nums) == 1 else (nums[0] or 0, nums[1], (nums[2] if len(nums) == 3 and nums[2] is not None else 1))
+                if step == 1:
+                    rest = self._seq(src, state)
+                    stop = len(rest) if hi is None else min(hi, len(rest))
+                    taken = tuple(rest[lo:stop]) if lo < stop else ()
+                    st = state
+                    if isinstance(src, GenV):
+                        # the slice takes max(lo, stop) elements from the underlying one-shot iterator (when consumed)
+                        pos = st.get(("gen", src.site), 0)
+                        st = st.set(("gen", src.site), pos + max(min(lo, len(rest)), stop))
+                    return ok(GenV((node.lineno, node.col_offset), taken), st)
+            return ok(TOP, self.mark_imprecise(state, node))
         if ((isinstance(f, ast.Attribute) and f.attr == "groupby" and isinstance(f.value, ast.Name) and f.value.id == "itertools") or (isinstance(f, ast.Name) and f.id == "groupby")) and 1 <= len(args) <= 2:
             # itertools.groupby over an exact sequence: runs of *consecutive* elements with equal keys.  Each group is
             # given as a tuple (what a consumer that uses the group before advancing sees)
@@ -480,12 +553,12 @@ class ExactCollections:
                     if keyf is None or keyf == NONE:
                         keys.append(x)
                         continue
-                    rr = self.apply_lambda(node, keyf, [x], {}, st) if hasattr(keyf, "closure") else None
-                    if not rr or len(rr) != 1 or rr[0][0] != "ok":
+                    rr = self._apply_key(node, keyf, x, st)
+                    if rr is None:
                         keys = None
                         break
-                    keys.append(deref(rr[0][1], rr[0][2]) if isinstance(rr[0][1], Ref) else rr[0][1])
-                    st = rr[0][2]
+                    keys.append(rr[0])
+                    st = rr[1]
                 if keys is not None:
                     groups = []
                     decided = True
@@ -500,6 +573,35 @@ class ExactCollections:
                     if decided:
                         return ok(GenV((node.lineno, node.col_offset), tuple(TupleV((k, TupleV(tuple(xs)))) for k, xs in groups)), st)
             return ok(TOP, self.mark_imprecise(st, node))
+        if isinstance(f, ast.Name) and f.id in ("sorted", "min", "max") and len(args) == 1 and set(kwargs) <= {"reverse", "key"}:
+            # concrete elements: the order (or the TypeError of comparing values of different kinds) is Python's own
+            seq, st = self.consume(args[0], state)
+            keyf = kwargs.get("key")
+            rev = kwargs.get("reverse", Const(False))
+            if seq is not None and isinstance(rev, Const):
+                try:
+                    keyed = []
+                    for x in seq:
+                        kx = x
+                        if keyf is not None and keyf != NONE:
+                            rr = self._apply_key(node, keyf, x, st)
+                            if rr is None:
+                                raise NotConcrete(x)
+                            kx, st = rr
+                        keyed.append((lower_value(deref(kx, st)), x))
+                    try:
+                        if f.id == "sorted":
+                            order = sorted(range(len(keyed)), key=lambda i: keyed[i][0], reverse=bool(rev.v))
+                            return [("ok",) + self.alloc(st, node, "list", TupleV(tuple(keyed[i][1] for i in order)))]
+                        if not keyed:
+                            return [("exc", Exc(ORD, "ValueError", node.lineno), st)]
+                        pick = (max if (f.id == "max") != bool(rev.v and False) else min)(range(len(keyed)), key=lambda i: keyed[i][0])
+                        return ok(keyed[pick][1], st)
+                    except TypeError:
+                        return [("exc", Exc(ORD, "TypeError", node.lineno), st)]
+                except NotConcrete:
+                    pass
+            return ok(TOP, self.mark_imprecise(st, node) if seq is not None and len(seq) > 1 else st)
         if isinstance(f, ast.Name) and f.id == "dict" and len(args) <= 1:
             d = None
             if not args:
@@ -605,6 +707,8 @@ class ExactCollections:
                     else:
                         res = True if any(t is True for t in ts) else (False if all(t is False for t in ts) else None)
                     return ok(Const(res) if res is not None else TOP)
+            if f.id == "reversed" and len(args) == 1 and self._seq(args[0], state) is not None and not isinstance(args[0], GenV):
+                return ok(GenV((node.lineno, node.col_offset), tuple(reversed(self._seq(args[0], state)))))
             if f.id in ("sorted", "reversed", "frozenset") and args and self._seq(args[0], state) is not None:
                 return ok(TOP)
         if isinstance(f, ast.Attribute) and f.attr == "fromkeys" and isinstance(f.value, ast.Name) and f.value.id == "dict" and 1 <= len(args) <= 2:
@@ -729,8 +833,12 @@ class ExactCollections:
             c = content(itval, state) if state is not None else None
             if c is None:
                 return None
+            if isinstance(c, DictV) and any(isinstance(v, MaybeV) for k, v in c.items):
+                return None
             return c.items if isinstance(c, TupleV) else tuple(k for k, v in c.items)
         if isinstance(itval, DictV):
+            if any(isinstance(v, MaybeV) for k, v in itval.items):
+                return None
             return tuple(k for k, v in itval.items)
         if isinstance(itval, Const) and isinstance(itval.v, (tuple, list)):
             return tuple(Const(x) for x in itval.v)
@@ -796,9 +904,15 @@ class ExactCollections:
                 return TOP, state
         if isinstance(node, ast.DictComp):
             d = DictV(())
-            for k, v in elem_values:
-                d = dict_set(d, k, v) if d is not TOP else TOP
+            for ev_ in elem_values:
+                maybe = isinstance(ev_, MaybeV)
+                k, v = ev_.v if maybe else ev_
+                if maybe and d is not TOP and dict_get(d, k)[0] != "miss":
+                    d = TOP  # (an optional entry that would overwrite another one: not representable)
+                d = dict_set(d, k, MaybeV(v, ev_.why) if maybe else v) if d is not TOP else TOP
             return self.alloc(state, node, "dict", d)
+        if any(isinstance(ev_, MaybeV) for ev_ in elem_values):
+            return TOP, self.mark_imprecise(state, node)  # a sequence with optional elements is not an exact sequence
         if isinstance(node, ast.ListComp):
             return self.alloc(state, node, "list", TupleV(tuple(v[0] for v in elem_values)))
         if isinstance(node, ast.GeneratorExp):
